@@ -366,7 +366,18 @@ fn law_failures(x: f32) -> Option<String> {
     if s.contains('e') || s.contains('E') {
         return Some(format!("{{}} printed an exponent: {}", s));
     }
+    // FmtLaws: the text is `-?digits` or `-?digits.digits`, nothing else
+    let body = s.strip_prefix('-').unwrap_or(&s);
+    let shape_ok = !body.is_empty() && body.bytes().all(|b| b.is_ascii_digit() || b == b'.') && body.matches('.').count() <= 1
+        && body.bytes().any(|b| b.is_ascii_digit());
+    if !shape_ok {
+        return Some(format!("{{}} printed something that is not [-]digits[.digits]: {}", s));
+    }
     if !s.contains('.') {
+        // FmtLaws.integral: with a `.` appended the text is a real token that converts back to the same value
+        if format!("{}.", s).parse::<f32>().ok().map(|y| y.to_bits()) != Some(x.to_bits()) {
+            return Some(format!("{}. does not read back to the same bits", s));
+        }
         // integral: the digits either fit an i32 and convert back to an == value, or the value is `big`
         match s.parse::<i32>() {
             Ok(n) => {
@@ -387,8 +398,11 @@ fn law_failures(x: f32) -> Option<String> {
         if x.fract() == 0.0 {
             return Some(format!("integral value printed with a fraction: {}", s));
         }
-        if s.parse::<f32>().ok() != Some(x) {
-            return Some(format!("{} does not read back", s));
+        if s.parse::<f32>().ok().map(|y| y.to_bits()) != Some(x.to_bits()) {
+            return Some(format!("{} does not read back to the same bits", s));
+        }
+        if big {
+            return Some("a value with a fraction satisfies the test of struct Real".into());
         }
     }
     None
